@@ -11,7 +11,7 @@ use crate::spec::*;
 use serde_json::Value;
 use std::collections::BTreeSet;
 
-pub const RULE: &str = "proptest-generated in-memory workspaces (directory chain depth 1-4, sibling dirs, conftests that define/override/star-import/explicitly import/pytest_plugins-declare names from a pool of 4, helper modules up to 3 hops, plugin and site-packages files, random registration order); every column of every usage token is queried. A case is non-trivial when some queried name has >=2 definitions in the workspace and the expected answer is outside the using file (or is empty while a same-named invisible definition exists); distinct = distinct workspace specs (hash of canonical JSON).";
+pub const RULE: &str = "proptest-generated in-memory workspaces (directory chain depth 1-4, sibling dirs, conftests that define/override/star-import/explicitly import/pytest_plugins-declare names from a pool of 4, helper modules up to 3 hops, plugin and site-packages files, random registration order; wrapped signatures and one-line fixture functions); every column of every usage token is queried. A case is non-trivial when some queried name has >=2 definitions in the workspace and the expected answer is outside the using file (or is empty while a same-named invisible definition exists); distinct = distinct workspace specs (hash of canonical JSON).";
 pub const ASSUMPTIONS: &[&str] = &[
     "reference model of pytest lookup written from the property text / README (no pytest offline)",
     "in-memory paths: conftest and module existence is decided by the index's file cache",
